@@ -68,15 +68,15 @@ type fsmNode struct {
 	markers  []fsmMarker
 	restarts int
 	applyErr string
-	snapReq  *uint64 // pending snapshot request (value: trailing logs to keep)
-	known    uint64  // highest index this node ever knew to be committed (it applied it)
+	snapReq  *uint64           // pending snapshot request (value: trailing logs to keep)
+	known    uint64            // highest index this node ever knew to be committed (it applied it)
 	live     map[string]uint64 // stream -> index of the create this node applied last (its own view)
 }
 
 type fsm struct {
 	h       *h3
 	nodes   []*fsmNode
-	log     []*raft.Log // committed entries; log[i].Index == i+1
+	log     []*raft.Log       // committed entries; log[i].Index == i+1
 	created map[string]uint64 // reference model: existing streams -> index of their create
 	skipped int
 	ops     map[string]int
